@@ -39,6 +39,7 @@ func init() {
 			{"a", ":", "'a'", ";", "S", ":", "a", ";"},
 			{"!ws", ":", "' '", ";", "_d", ":", "'0'", "-", "'9'", ";", "n", ":", "_d", "{", "_d", "}", ";", "S", ":", "n", "\"+\"", "S", "<< X[0], nil >>", "|", "empty", ";"},
 			{"t", ":", "[", "'a'", "]", "(", "'b'", "|", ".", ")", ";"},
+			{"importpath", ":", "'a'", ";", "emptyx", ":", "'b'", ";", "errors", ":", "'c'", ";", "Unit", ":", "importpath", "emptyx", "errors", "|", "Imports", ";", "Imports", ":", "importpath", ";"},
 		}
 		junk := []string{",", "/", "<", "<=", "=", "+", "*", "#", "@", "$", "%", "^", "&", "~", "?", "import", "\\", "7", ">", ">>", "\x01", "\x7f"}
 		type viol struct {
